@@ -28,6 +28,7 @@ var modelledFns = map[string]string{
 	"mod": "FMod", "mean": "FMean", "max": "FMax", "min": "FMin", "percent": "FPercent", "format_number": "FFormatNumber",
 	"date_from_parts": "FDateFromParts", "time_from_parts": "FTimeFromParts", "datetime_add": "FDateTimeAdd",
 	"array": "FArray", "object": "FObject", "extract_object": "FExtractObject", "foreach": "FForEach", "has_group": "FHasGroup", "regex_match": "FRegexMatch",
+	"text": "FText", "number": "FNumber", "boolean": "FBoolean", "and": "FAnd", "or": "FOr", "if": "FIf", "abs": "FAbs", "count": "FCount", "default": "FDefault", "join": "FJoin", "reverse": "FReverse", "sum": "FSum", "concat": "FConcat", "is_error": "FIsError", "text_length": "FTextLength", "text_compare": "FTextCompare",
 }
 
 // functions whose result is compared on its kind only (the model does not reproduce the value)
@@ -37,7 +38,7 @@ var kindOnly = map[string]bool{"format_number": true, "date_from_parts": true, "
 var unicodeOK = map[string]bool{"field": true, "text_slice": true, "char": true, "repeat": true, "replace": true, "array": true}
 
 var corrOps = map[string]string{"op:&": "OConcat", "op:=": "OEq", "op:!=": "ONeq", "op:+": "OAdd", "op:-": "OSub", "op:*": "OMul",
-	"op:/": "ODiv", "op:<": "OLt", "op:<=": "OLte", "op:>": "OGt", "op:>=": "OGte"}
+	"op:/": "ODiv", "op:^": "OPow", "op:<": "OLt", "op:<=": "OLte", "op:>": "OGt", "op:>=": "OGte"}
 
 func corrPool() (all []VSpec, ints []VSpec, texts []VSpec) {
 	num := func(s string) VSpec { return named(s, vNum(s)) }
@@ -64,7 +65,7 @@ func corrPool() (all []VSpec, ints []VSpec, texts []VSpec) {
 		named("{}", vObj()), named("{a:1,b:'x'}", vObj("a", vNum("1"), "b", vText("x"))), named("{A:2,a:1}", vObj("A", vNum("2"), "a", vNum("1"))),
 		named("{uuid:'uuid-1'}", vObj("uuid", vText("uuid-1"))), named("{__default__:5,a:1}", vObj("__default__", vNum("5"), "a", vNum("1"))),
 		named("{__default__:'x y',b:2}", vObj("__default__", vText("x y"), "b", vNum("2"))), named("{n:{m:[1,2]}}", vObj("n", vObj("m", vArr(vNum("1"), vNum("2"))))),
-		named("dt:2018", vDT("2018-04-11T13:24:30.123456-05:00")), named("dt:year1", vDT("0001-01-01T00:00:00Z")),
+		named("dt:2018", vDT("2018-04-11T13:24:30.123456-05:00")),
 		named("fn:word", vFn("word")), named("fn:repeat", vFn("repeat")), named("fn:mod", vFn("mod")), named("fn:foreach", vFn("foreach")), named("fn:array", vFn("array")), named("fn:round", vFn("round")),
 		named("fn:upper", vFn("upper")), named("fn:char", vFn("char")), named("fn:text_slice", vFn("text_slice")), named("fn:mean", vFn("mean"))}
 	all = append(all, ints...)
@@ -160,7 +161,7 @@ func corrTasks(r *hx.Rand, o *hx.Opts) []*task {
 	opCorpus := [][]VSpec{P("1", "0"), P("1", "0.0"), P("1", "3"), P("2", "3"), P("-2", "3"), P("0.125", "33.333333333333333"), P("1000000000000000000000000000000", "0.000000000000000000000000000001"),
 		P("1.50", "1.5"), P("'a'", "1.50"), P("nil", "nil"), P("error", "1"), P("1", "error"), P("[1,2,3]", "1"), P("{__default__:5,a:1}", "2"), P("true", "'true'"), P("1E3", "1000"), P("5E+20", "1E-100")}
 
-	n := o.Count(2500, 60000)
+	n := o.Count(4000, 80000)
 	var tasks []*task
 	cur := &task{name: "corr"}
 	add := func(c *Call) {
@@ -190,13 +191,20 @@ func corrTasks(r *hx.Rand, o *hx.Opts) []*task {
 			addCall("op", op, args)
 		}
 	}
+	for _, pair := range [][2]string{{"2", "10"}, {"2", "-2"}, {"-2", "3"}, {"-2", "-3"}, {"1.5", "3"}, {"0.001", "999999999"}, {"0.001", "33333"}, {"0.001", "33334"}, {"0.001", "-33334"},
+		{"0", "0"}, {"0", "5"}, {"0", "-5"}, {"5", "0"}, {"2", "0.5"}, {"-8", "0.5"}, {"9", "-0.5"}, {"2", "-100001"}, {"99", "-50001"}, {"99", "-50000"}, {"3", "-200"}, {"1E3", "3"}, {"1E3", "101"}, {"1E-100", "1.5"},
+		{"1234567890123456789012345678901234567890123456789012345678901234", "0.5"}, {"12345678901234567890123456789012345678901234567890123456789012345", "0.5"}, {"2", "1E3"}, {"2", "2.0"}, {"1.0", "200"}} {
+		addCall("op", "op:^", []VSpec{named(pair[0], vNum(pair[0])), named(pair[1], vNum(pair[1]))})
+	}
 	// products whose decimal exponent leaves +-100000 (maxNumberExponent) are error values
 	for _, pair := range [][2]string{{"1E-60000", "1E-60000"}, {"1E60000", "1E60000"}, {"1E-60000", "1E-40000"}, {"1E-60000", "1E-40001"}, {"1E60000", "1E40001"}, {"1E-60000", "1E60000"}} {
 		addCall("op", "op:*", []VSpec{named(pair[0], vNum(pair[0])), named(pair[1], vNum(pair[1]))})
 	}
 	arityOf := map[string][2]int{"word": {2, 3}, "word_slice": {2, 4}, "field": {3, 3}, "text_slice": {2, 4}, "char": {1, 1}, "repeat": {2, 2}, "replace": {3, 4},
 		"round": {1, 2}, "round_up": {1, 2}, "round_down": {1, 2}, "mod": {2, 2}, "mean": {1, 4}, "max": {1, 4}, "min": {1, 4}, "percent": {1, 1}, "format_number": {1, 3},
-		"date_from_parts": {3, 3}, "time_from_parts": {3, 3}, "datetime_add": {3, 3}, "array": {0, 4}, "object": {0, 4}, "extract_object": {2, 4}, "foreach": {2, 4}, "has_group": {2, 3}, "regex_match": {2, 3}}
+		"date_from_parts": {3, 3}, "time_from_parts": {3, 3}, "datetime_add": {3, 3}, "array": {0, 4}, "object": {0, 4}, "extract_object": {2, 4}, "foreach": {2, 4}, "has_group": {2, 3}, "regex_match": {2, 3},
+		"text": {1, 1}, "number": {1, 1}, "boolean": {1, 1}, "and": {1, 4}, "or": {1, 4}, "if": {3, 3}, "abs": {1, 1}, "count": {1, 1}, "default": {2, 2}, "join": {2, 2},
+		"reverse": {1, 1}, "sum": {1, 1}, "concat": {2, 2}, "is_error": {1, 1}, "text_length": {1, 1}, "text_compare": {2, 2}}
 	pick := func(rr *hx.Rand, fn string, pos int) VSpec {
 		// position-aware: mostly the kind the function wants there, sometimes anything
 		if rr.Chance(1, 6) {
@@ -221,6 +229,15 @@ func corrTasks(r *hx.Rand, o *hx.Opts) []*task {
 			return hx.Pick(rr, P("{a:1,b:'x'}", "{A:2,a:1}", "{n:{m:[1,2]}}", "{}", "{__default__:5,a:1}"))
 		case fn == "extract_object":
 			return hx.Pick(rr, P("'a'", "'A'", "'b'", "'foo'", "'UUID'", "nil", "1"))
+		case (fn == "join" || fn == "reverse" || fn == "sum" || fn == "concat" || fn == "count") && pos == 0, fn == "concat" && pos == 1:
+			return hx.Pick(rr, P("[1,2,3]", "['a',nil,1.50]", "[[1],[2,[3]]]", "[]", "nil", "groups", "{a:1,b:'x'}", "'abc def ghi'"))
+		case fn == "join" && pos == 1, fn == "text_compare", fn == "text_length", fn == "default":
+			if rr.Chance(1, 3) {
+				return hx.Pick(rr, all)
+			}
+			return hx.Pick(rr, texts)
+		case fn == "text" || fn == "number" || fn == "boolean" || fn == "is_error" || fn == "and" || fn == "or" || fn == "if":
+			return hx.Pick(rr, all)
 		case fn == "has_group" && pos == 0, fn == "foreach" && pos == 0:
 			return hx.Pick(rr, P("groups", "[1,2,3]", "['a',nil,1.50]", "[[1],[2,[3]]]", "[obj,3]", "[]", "nil"))
 		case fn == "foreach" && pos == 1:
@@ -287,6 +304,18 @@ func corrEligible(c *Call) bool {
 		}
 		if !isASCII(a) && !(c.Kind == "call" && unicodeOK[c.Fn]) && !(c.Kind == "op") {
 			return false
+		}
+	}
+	if c.Kind == "op" && c.Fn == "op:^" && len(c.Args) == 2 {
+		// a large whole power is computed exactly by both sides: keep it small unless the exponent limit rejects it
+		if b, ok := approxNumber(c.Args[0]); ok {
+			if p, ok := approxNumber(c.Args[1]); ok {
+				resultExp := new(big.Int).Mul(big.NewInt(int64(b.Exponent())), p.BigInt())
+				rejected := !resultExp.IsInt64() || resultExp.Int64() < -100000 || resultExp.Int64() > 100000
+				if !rejected && (p.Abs().Cmp(decimal.New(200, 0)) > 0 || b.NumDigits() > 60) {
+					return false
+				}
+			}
 		}
 	}
 	if c.Kind == "call" && c.Fn == "regex_match" {
@@ -387,6 +416,12 @@ func coqImpl(c *Call, out Out) (string, bool) {
 	}
 	if c.Kind == "call" && kindOnly[c.Fn] {
 		return "(IKind " + k + ")", true
+	}
+	if c.Kind == "op" && c.Fn == "op:^" && len(c.Args) == 2 {
+		// the value of a non-integral power is not modelled
+		if p, ok := approxNumber(c.Args[1]); ok && !p.IsInteger() {
+			return "(IKind " + k + ")", true
+		}
 	}
 	switch out.RK {
 	case "number":
